@@ -9,14 +9,15 @@ A case is  {'op':'insp', 'fmt', 'n', 'bg', 'p':[[off, hex],...], 'sizes':[...], 
   late  = a chunk presented after finish().
 """
 import sys, os, random, struct, uuid
-import gen_insp
+import gen_insp, gen_insp_engine
 sys.path.insert(0, os.path.dirname(os.path.dirname(os.path.abspath(__file__))))
 import insp_obs
 
 import os
 ID = 'C01'
-GEN = [('Gen/Insp_Consts.v', gen_insp.generate), ('Gen/Insp_Code.v', gen_insp.generate_code)]
-EQUIV_FILES = ['Proofs/Insp_Equiv.v']
+GEN = [('Gen/Insp_Consts.v', gen_insp.generate), ('Gen/Insp_Code.v', gen_insp.generate_code),
+       ('Gen/Insp_EngineCode.v', gen_insp_engine.generate), ('Gen/Insp_FormatCode.v', gen_insp_engine.generate_formats)]
+EQUIV_FILES = ['Proofs/Insp_Equiv.v', 'Proofs/Insp_EngineEquiv.v', 'Proofs/Insp_FormatEquiv.v', 'Proofs/Insp_FormatMatchEquiv.v']
 # further theorem files are picked up when present (VMDK / VHDX refinement, wrapper verdict)
 THEOREM_FILES = ['Properties/C01.v'] + [f for f in ('Properties/C01_Vmdk.v', 'Properties/C01_Vhdx.v', 'Properties/C01_Wrapper.v')
                                         if os.path.exists(os.path.join(os.path.dirname(os.path.dirname(os.path.dirname(os.path.abspath(__file__)))), 'coq', f))]
@@ -346,12 +347,94 @@ def reference(c):
         _ref[key] = verdict(insp_obs.observe(c['fmt'], data, [len(data)], queries=False))
     return _ref[key]
 
+# ---- history independence: what OTHER inspector instances processed in the same process must not matter
+_hist_n = [0]
+def unrelated_image(fmt):
+    """a well-formed image of the format whose size field is different on every call"""
+    _hist_n[0] += 1
+    k = 0x5A5A0000 + _hist_n[0]
+    rng = random.Random(k)
+    kw = {'qcow2': {'size': k}, 'vhd': {'size': k}, 'vdi': {'size': k}, 'vhdx': {'size': k, 'meta_off': 256 * KI, 'rt_pad': 0, 'mt_pad': 0, 'item_off': 64 * KI},
+          'vmdk': {'sectors': k}, 'iso': {'blocks': k & 0xFFFFFF}, 'luks': {'payload': k & 0xFFFF}}.get(fmt, {})
+    n, p, _ = BUILD[fmt](rng, **kw)
+    return data_of({'n': n, 'bg': 'z', 'p': p})
+
+def feed_other(fmt, data, upto=None):
+    m = insp_obs.fi()
+    o = m.ALL_FORMATS[fmt]()
+    try:
+        o.eat_chunk(data if upto is None else data[:upto])
+        if upto is None: o.finish()
+        for q in ('format_match', 'virtual_size', 'complete'):
+            try: getattr(o, q)
+            except Exception: pass
+    except Exception:
+        pass
+    return o
+
+def history_obs(c):
+    """the case's observation again, in a process where other instances of the same class have just handled, and keep
+    handling between the chunks, an unrelated image"""
+    fmt = c['fmt']; data = data_of(c)
+    img = unrelated_image(fmt)
+    feed_other(fmt, img)                                   # a whole other stream before
+    others = []
+    def between(k):
+        if k % 2 == 0 or not others: others.append(feed_other(fmt, img, upto=min(len(img), 600 if fmt != 'vhdx' else 200 * KI)))
+        else:
+            try: others[-1].eat_chunk(img[600:])
+            except Exception: pass
+    return insp_obs.observe(fmt, data, c['sizes'], bytes.fromhex(c['late']) if 'late' in c else None, between=between)
+
+def wrapper_verdict(data, sizes, history=None):
+    m = insp_obs.fi()
+    import io as _io
+    if history is not None:
+        w0 = m.InspectWrapper(_io.BytesIO(history))
+        while w0.read(4096): pass
+        w0.close()
+    w = m.InspectWrapper(_io.BytesIO(data))
+    out = []
+    try:
+        for n in list(sizes) + [max(1, len(data))]:
+            if history is not None and len(out) % 3 == 0:
+                w1 = m.InspectWrapper(_io.BytesIO(history)); w1.read(70000)
+            w.read(n)
+        w.close()
+        f = w.format
+        out.append('%s:%s' % (f, insp_obs.q(lambda: f.virtual_size)))
+        out.append(','.join(sorted(str(x) for x in w.formats)))
+    except Exception as e:
+        out.append('EXN:' + type(e).__name__)
+    return '|'.join(out)
+
+_nozone = set()
 def oracle(c, io):
+    _nozone.discard(id(c))
+    msg = oracle_(c, io)
+    return msg
+def oracle_(c, io):
     if io.startswith('HARNESS-ERROR'): return io
     if c['op'] == 'tiny': return tiny_oracle(c, io)
     if '|!' in io:
+        _nozone.add(id(c))
         return 'retained bytes of region(s) %s are not the stream bytes at the region offset' % io.split('|!')[1]
-    if 'late' in c or c.get('check') == 'retained': return None
+    # history independence (every 3rd case; all cases when replayed / searched one by one this is still deterministic)
+    if c.get('check') == 'history' or (hash(repr(c['sizes'])) + c['n']) % 3 == 0:
+        h = history_obs(c)
+        if h != project(c, io):
+            i = next((k for k, (a, b) in enumerate(zip(h.split('|'), project(c, io).split('|'))) if a != b), -1)
+            _nozone.add(id(c))
+            return ('the observation of a FRESH %s inspector depends on what other instances processed in the same process: record %d is %r after other '
+                    'instances handled an unrelated image, %r otherwise' % (c['fmt'], i, h.split('|')[i][:120] if i >= 0 else h[-120:], project(c, io).split('|')[i][:120] if i >= 0 else ''))
+    if c.get('check') == 'history' or (hash(repr(c['sizes'])) + c['n']) % 16 == 5:
+        data = data_of(c)
+        hist = unrelated_image('qcow2') if (c['n'] % 2) else unrelated_image('vmdk')
+        a = wrapper_verdict(data, c['sizes']); b = wrapper_verdict(data, c['sizes'], history=hist)
+        if a != b:
+            _nozone.add(id(c))
+            return 'InspectWrapper result depends on what other wrappers processed in the same process: %r vs %r' % (a, b)
+    if 'late' in c or c.get('check') in ('retained', 'history'): return None
     v = verdict(io)
     if 'expect' in c and list(v) != list(c['expect']):
         return 'verdict %r, expected %r (the image was built with these values)' % (v, c['expect'])
@@ -369,7 +452,11 @@ def oracle(c, io):
 # ------------------------------------------------------------------ zones of the known findings (predicates on the INPUT bytes)
 def le(b, o, w): return int.from_bytes(b[o:o + w], 'little')
 def zone(c):
-    if c.get('op') != 'insp': return None
+    """known findings as predicates on the INPUT bytes.  F1/F3 (VMDK) are checked equal to the extracted Coq predicates
+    zone_vmdk_text / zone_vmdk_shortfoot on every case by props/C01_vmdk_spec.py; F2/F4 (VHDX) ARE the Python rendering of
+    zone_vhdx_backptr / zone_vhdx_metasig (C01_vhdx_spec.zone_tight, checked equal to the extracted Coq predicates on every case).
+    Violations of another kind (retained bytes, history dependence) and cases marked nozone are never absorbed."""
+    if c.get('op') != 'insp' or c.get('nozone') or id(c) in _nozone: return None
     d = data_of(c); fmt = c['fmt']
     if fmt == 'vmdk':
         if d[:4] != b'KDMV' or le(d, 4, 4) not in (1, 2, 3):
@@ -379,23 +466,11 @@ def zone(c):
                 return 'F1'
         elif le(d, 56, 8) == GD_AT_END and len(d) < 63 + 1536:
             return 'F3'
-    if fmt == 'vhdx' and len(d) >= 256 * KI:
-        t = d[192 * KI:256 * KI]
-        if t[:4] == b'regi' and le(t, 8, 4) < 2048:
-            for i in range(le(t, 8, 4)):
-                e = t[16 + 32 * i:48 + 32 * i]
-                if e[:16] == guid_le(G_META):
-                    mo = le(e, 16, 8)
-                    if mo < 256 * KI: return 'F2'
-                    mt = d[mo:mo + 64 * KI]
-                    if len(mt) >= 32 and mt[:8] != b'metadata': return 'F4'
-                    cnt = le(mt, 10, 2)
-                    for j in range(min(cnt, 2047)):
-                        me = mt[32 + 32 * j:64 + 32 * j]
-                        if me[:16] == guid_le(G_VDS):
-                            if le(me, 16, 4) < 32 + 32 * cnt: return 'F2'
-                            break
-                    break
+    if fmt == 'vhdx':
+        from props import C01_vhdx_spec
+        f2, f4 = C01_vhdx_spec.zone_tight(d)
+        if f2: return 'F2'
+        if f4: return 'F4'
     return None
 
 def classify(c, io):
